@@ -830,8 +830,15 @@ class Machine:
     def op_itruediv_t(self, a):
         return self.op_imul_t(a, div=True)
 
+    def shared_axes(self, v):
+        fv = []
+        for e in v.pt.vaxes:
+            axis_fv(self.IX, e, fv)
+        return len({id(k) for k in fv}) < len(fv)
+
     def op_default_to(self, a):
-        x = self.pick(a[0])
+        x = self.pick(a[0], self.shared_axes) if a[2] % 2 else None
+        x = x or self.pick(a[0])
         if x is None:
             return None
         d = [0.0, 1.0, float('-inf'), float('inf'), -2.5][a[1] % 5] if x.model.dtype.is_floating_point else bool(a[1] % 2)
